@@ -4,5 +4,5 @@ CONSTANTS
   MaxLen = 24
   MaxChunks = 4
   Emit = TRUE
-INVARIANTS C14_Model Design_Model Export
+INVARIANTS C14_Model Design_Model Table_Model Export
 CHECK_DEADLOCK FALSE
